@@ -61,6 +61,15 @@ Proof. exact error_rule. Qed.
 Theorem C04_perfect_rule : forall dkz o sd L, z0 dkz = 0 -> optimum_poling_period dkz o sd L = AutoInfinite.
 Proof. exact perfect_rule. Qed.
 
+(* PeriodicPoling::try_as_optimum / SPDC::assign_optimum_periodic_poling / SPDC::optimum_periodic_poling (both arms translated;
+   the SPDC methods pinned): from an unpoled base as from a poled one, the installed poling is PeriodicPoling::new of the period
+   optimum_poling_period returned — signed period = that period, k_eff = 2 pi / period *)
+Theorem C04_assigned_poling : forall base_on opp, opp <> 0 ->
+  assigned_poling base_on opp = poling_of opp /\ 0 < tao_period base_on opp /\
+  pp_signed_period_on (tao_positive base_on opp) (tao_period base_on opp) = opp /\
+  pp_k_eff (assigned_poling base_on opp) = 2 * PI / opp.
+Proof. exact assigned_poling_spec. Qed.
+
 (* with exact simplex operations: a seed 2 pi / |dkz unpoled| more than 1 um above the crystal length is always refused
    (every evaluated point stays outside the bounds) — for every mismatch function and termination test *)
 Theorem C04_seed_beyond_length_error : forall dkz sd L, z0 dkz <> 0 -> L + 1e-6 < Rabs (2 * PI / z0 dkz) ->
@@ -304,3 +313,4 @@ Print Assumptions C04_dkz_closed_form.
 Print Assumptions C04_phi_increasing.
 Print Assumptions C04_dkz_monotone_positive.
 Print Assumptions C04_dkz_monotone_negative.
+Print Assumptions C04_assigned_poling.
